@@ -722,7 +722,10 @@ class VarPattern:
 
     @staticmethod
     def detype_var_pattern(x):
-        return repr(x)
+        # A rule is a Python object without a string form that
+        # ``to_var_pattern`` could read back: do not export it (None), a
+        # nested xonsh would fail to build its environment from the repr().
+        return None
 
 
 ENSURERS["var_pattern"] = (
